@@ -150,6 +150,7 @@ type FnCtx struct {
 	callN    map[string]int
 	recFns   map[string]bool
 	curStmtPos token.Pos
+	Pruned   []string // paths ended at an unsupported statement (contracts marked `partial`)
 }
 
 func (c *FnCtx) frame() *inlineFrame { return c.frames[len(c.frames)-1] }
@@ -415,6 +416,9 @@ func (c *FnCtx) sortOf(t types.Type) string {
 	case *types.Array:
 		return "(Array Int " + c.sortOf(u.Elem()) + ")"
 	case *types.TypeParam:
+		if os.Getenv("ELKVC_DEBUG") != "" {
+			panic("uninstantiated type parameter " + u.String())
+		}
 		panic(unsupported{"uninstantiated type parameter " + u.String()})
 	case *types.Tuple:
 		panic(unsupported{"tuple sort"})
@@ -488,7 +492,7 @@ func (c *FnCtx) typeInv(term string, t types.Type, st *State) string {
 	switch u := t.Underlying().(type) {
 	case *types.Basic:
 		if u.Info()&types.IsString != 0 {
-			return and(app("<=", "0", app("str_len", term)), app("<=", "0", app("str_ptr", term)))
+			return and(app("<=", "0", app("str_len", term)), app("<=", app("str_len", term), "72057594037927936"), app("<=", "0", app("str_ptr", term)))
 		}
 		if u.Kind() == types.UnsafePointer {
 			return app("<=", "0", term)
@@ -496,7 +500,9 @@ func (c *FnCtx) typeInv(term string, t types.Type, st *State) string {
 	case *types.Pointer, *types.Map, *types.Chan, *types.Signature:
 		return app("<=", "0", term)
 	case *types.Slice:
+		// len and cap are Go ints; an allocation of 2^56 elements does not exist on amd64 (48-bit address space)
 		return and(app("<=", "0", app("sl_len", term)), app("<=", app("sl_len", term), app("sl_cap", term)),
+			app("<=", app("sl_cap", term), "72057594037927936"),
 			app("<=", "0", app("sl_ptr", term)), app("=>", app("=", app("sl_ptr", term), "0"), app("=", app("sl_cap", term), "0")))
 	case *types.Interface:
 		return and(app("<=", "0", app("if_tab", term)), app("<=", "0", app("if_ptr", term)))
@@ -586,6 +592,30 @@ func (c *FnCtx) fieldKey(structT types.Type, field string) string {
 }
 
 func (c *FnCtx) memKey(elem types.Type) string {
+	// named non-struct types share the memory of their underlying type, so that pointer
+	// conversions such as (*[]Value)(l) with l *ArrayListOfValue alias as they do in Go
+	elem = c.subst(elem)
+	for {
+		n, ok := elem.(*types.Named)
+		if !ok {
+			break
+		}
+		if _, isStruct := n.Underlying().(*types.Struct); isStruct {
+			break
+		}
+		elem = n.Underlying()
+	}
+	switch u := elem.(type) {
+	case *types.Slice:
+		return "M_slice"
+	case *types.Pointer, *types.Map, *types.Chan, *types.Signature:
+		return "M_ptr"
+	case *types.Basic:
+		if u.Info()&types.IsInteger != 0 {
+			bits, signed, _ := intInfo(u)
+			return fmt.Sprintf("M_int%d_%v", bits, signed)
+		}
+	}
 	return "M_" + c.typeKey(elem)
 }
 
@@ -602,6 +632,15 @@ func (c *FnCtx) assumeInv(st *State, term string, t types.Type) {
 	if inv != "true" {
 		// invariants of stored values hold unconditionally (well-typed memory)
 		c.facts = append(c.facts, inv)
+	}
+	// whatever a memory cell points to was allocated before the read
+	if st != nil && st.alloc != "" && st.alloc != "0" {
+		switch u := c.subst(t).Underlying().(type) {
+		case *types.Pointer, *types.Map, *types.Chan:
+			c.facts = append(c.facts, implies(st.pc, app("<", term, st.alloc)))
+		case *types.Slice:
+			c.facts = append(c.facts, implies(st.pc, app("<=", app("+", app("sl_ptr", term), app("*", fmt.Sprint(c.sizeof(u.Elem())), app("sl_cap", term))), st.alloc)))
+		}
 	}
 }
 
